@@ -118,5 +118,6 @@ def loom_keys(res):
     out = set()
     for k in res["outcomes"]:
         d = json.loads(k)
-        out.add(canon_key(d["regs"], d.get("drops"), d.get("stat")))
+        extra = {"tls_alive_in_drop": d["tls_alive_in_drop"]} if d.get("tls_alive_in_drop") else None
+        out.add(canon_key(d["regs"], d.get("drops"), d.get("stat"), extra))
     return out
